@@ -58,6 +58,12 @@ type glFunc struct {
 	U32BV bool
 	// Libs: additional library calls for this function (callee text or "method:Name")
 	Libs map[string]glLib
+	// Rec: the function calls itself. It gets a leading fuel parameter (`0` = the error `.other "fuel"`),
+	// every self-call passes the remaining fuel; the tie theorem shows which fuel suffices.
+	Rec bool
+	// Extra: Lean arguments that are not Go parameters (e.g. the record `P` of library functions); a
+	// translated caller passes the terms of the same names
+	Extra string
 }
 
 type glUnit struct {
@@ -88,12 +94,23 @@ var glLibs = map[string]glLib{
 
 // translated functions known so far: Go callee text ("Name" or "pkg.Name") -> info
 type glSig struct {
+	extra string // leading Lean arguments that are not Go parameters
+	rec   bool
 	lean string
 	ptr  []bool // per parameter: pointer-to-slice parameter (threaded)
 	nres int    // number of Go results
 }
 
 var glSigs = map[string]*glSig{}
+
+// callee: the Lean function with its non-Go leading arguments. For a recursive function the fuel comes
+// first (callers insert it), then the extra arguments.
+func (g *glSig) callee() string {
+	if g.extra != "" && !g.rec {
+		return g.lean + " " + g.extra
+	}
+	return g.lean
+}
 
 // ---------------------------------------------------------------------------------------------
 
@@ -107,6 +124,7 @@ type glTr struct {
 	tmp     int
 	ptrs    []string // pointer parameters in order
 	file    *ast.File
+	base    int // extra indentation (bodies of recursive functions sit inside a match arm)
 	alias   map[string]string // Go name -> Lean name (Lean's `let mut` cannot be shadowed: re-declared names get a suffix)
 	count   map[string]int
 }
@@ -135,7 +153,7 @@ func (t *glTr) die(n ast.Node, format string, a ...any) {
 func glIndent(n int) string { return strings.Repeat("  ", n) }
 
 func (t *glTr) line(ind int, format string, a ...any) {
-	t.b.WriteString(glIndent(ind))
+	t.b.WriteString(glIndent(ind + t.base))
 	fmt.Fprintf(t.b, format, a...)
 	t.b.WriteString("\n")
 }
@@ -601,7 +619,7 @@ func (t *glTr) call(x *ast.CallExpr) (string, bool) {
 		if id, ok := sel.X.(*ast.Ident); ok && t.scope[id.Name] {
 			if sig, ok := glSigs["method:"+sel.Sel.Name]; ok {
 				cs, ps := t.exprs(append([]ast.Expr{sel.X}, x.Args...))
-				c, p := t.seq(cs, ps, func(s []string) string { return "(" + sig.lean + " " + strings.Join(s, " ") + ")" })
+				c, p := t.seq(cs, ps, func(s []string) string { return "(" + sig.callee() + " " + strings.Join(s, " ") + ")" })
 				if p {
 					return c, false
 				}
@@ -616,7 +634,7 @@ func (t *glTr) call(x *ast.CallExpr) (string, bool) {
 			}
 		}
 		cs, ps := t.exprs(x.Args)
-		c, p := t.seq(cs, ps, func(s []string) string { return "(" + sig.lean + " " + strings.Join(s, " ") + ")" })
+		c, p := t.seq(cs, ps, func(s []string) string { return "(" + sig.callee() + " " + strings.Join(s, " ") + ")" })
 		if p {
 			return c, false
 		}
@@ -651,7 +669,11 @@ func glProj(k, n int) string {
 
 // returnStmt emits `return v` of the Go function: pointer parameters first, then the results.
 func (t *glTr) returnCode(results []string) string {
-	all := append(append([]string{}, t.ptrs...), results...)
+	all := []string{}
+	for _, p := range t.ptrs {
+		all = append(all, t.nm(p))
+	}
+	all = append(all, results...)
 	v := t.tuple(all)
 	if len(t.loops) > 0 {
 		return "return Glb.Go.Ctl.ret " + v
@@ -890,6 +912,55 @@ func (t *glTr) stmt(ind int, s ast.Stmt) {
 	case *ast.IfStmt:
 		if t.ifLookup(ind, x) {
 			return
+		}
+		if call, ok := x.Cond.(*ast.CallExpr); ok && x.Init == nil {
+			if sig, ok := glSigs[glText(call.Fun)]; ok && sig.nres == 1 {
+				hasPtr := false
+				for _, p := range sig.ptr {
+					hasPtr = hasPtr || p
+				}
+				if hasPtr {
+					// if f(buf, …) { A }  where f updates *buf and returns a bool
+					var outs, args []string
+					for i, a := range call.Args {
+						if i < len(sig.ptr) && sig.ptr[i] {
+							id, ok := a.(*ast.Ident)
+							if !ok || !t.fn.Ptr[id.Name] {
+								t.die(call, "pointer argument must be a pointer parameter")
+							}
+							outs = append(outs, t.nm(id.Name))
+							args = append(args, t.nm(id.Name))
+							continue
+						}
+						c, p := t.expr(a)
+						args = append(args, glBind(c, p))
+					}
+					if t.fn.Rec && glText(call.Fun) == t.fn.Name {
+						pre := []string{"fuel__"}
+						if t.fn.Extra != "" {
+							pre = append(pre, t.fn.Extra)
+						}
+						args = append(pre, args...)
+					}
+					v := t.fresh()
+					t.line(ind, "let %s ← %s %s", v, sig.callee(), strings.Join(args, " "))
+					for i, o := range outs {
+						t.line(ind, "%s := %s", o, strings.Replace(glProj(i, len(outs)+1), "st__", v, 1))
+					}
+					t.line(ind, "if %s then", strings.Replace(glProj(len(outs), len(outs)+1), "st__", v, 1))
+					t.block(ind+1, x.Body.List)
+					if x.Else != nil {
+						t.line(ind, "else")
+						switch el := x.Else.(type) {
+						case *ast.BlockStmt:
+							t.block(ind+1, el.List)
+						default:
+							t.stmt(ind+1, el)
+						}
+					}
+					return
+				}
+			}
 		}
 		if as, ok := x.Init.(*ast.AssignStmt); ok && len(as.Rhs) == 1 {
 			_, isTA := as.Rhs[0].(*ast.TypeAssertExpr)
@@ -1311,11 +1382,18 @@ func (t *glTr) callStmt(ind int, call *ast.CallExpr) {
 	if len(outs) == 0 || sig.nres != 0 {
 		t.die(call, "call statement %s: unsupported shape", name)
 	}
+	if t.fn.Rec && name == t.fn.Name {
+		pre := []string{"fuel__"}
+		if t.fn.Extra != "" {
+			pre = append(pre, t.fn.Extra)
+		}
+		args = append(pre, args...)
+	}
 	if len(outs) == 1 {
-		t.line(ind, "%s ← %s %s", outs[0], sig.lean, strings.Join(args, " "))
+		t.line(ind, "%s ← %s %s", outs[0], sig.callee(), strings.Join(args, " "))
 	} else {
 		v := t.fresh()
-		t.line(ind, "let %s ← %s %s", v, sig.lean, strings.Join(args, " "))
+		t.line(ind, "let %s ← %s %s", v, sig.callee(), strings.Join(args, " "))
 		for i, o := range outs {
 			t.line(ind, "%s := %s", o, strings.Replace(glProj(i, len(outs)), "st__", v, 1))
 		}
@@ -1600,7 +1678,7 @@ func (t *glTr) rangeStmt(ind int, x *ast.RangeStmt) {
 			val = id.Name
 		}
 	}
-	if val != "" && !t.fn.Ptr["range-bytes:"+glText(x.X)] {
+	if val != "" && !t.fn.Ptr["range-bytes:"+glText(x.X)] && !t.fn.Ptr["range-elems"] {
 		t.die(x, "range with a value variable over %s: declare it a byte slice (Ptr[\"range-bytes:%s\"])", glText(x.X), glText(x.X))
 	}
 	if t.scope[key] {
@@ -1771,7 +1849,7 @@ func glTranslateUnit(u glUnit) {
 			lean = f.Name
 		}
 		t := &glTr{fn: f, decl: decl, file: files[f.File], b: &b, scope: map[string]bool{}, alias: map[string]string{}, count: map[string]int{}}
-		sig := &glSig{lean: u.NS + "." + lean}
+		sig := &glSig{lean: u.NS + "." + lean, extra: f.Extra, rec: f.Rec}
 		if decl.Recv != nil {
 			for _, fld := range decl.Recv.List {
 				for _, n := range fld.Names {
@@ -1807,9 +1885,24 @@ func glTranslateUnit(u glUnit) {
 			t.ptrs = append(t.ptrs, v)
 		}
 		fmt.Fprintf(&b, "\n/-- `%s` (%s:%d) -/\n", f.Name, f.File, fset.Position(decl.Pos()).Line)
-		fmt.Fprintf(&b, "def %s %s : Glb.Go.M %s := do\n", lean, f.Args, f.Ret)
+		if f.Rec {
+			glSigs[f.Name] = sig
+			// binder names of Args, in order
+			var names []string
+			for _, grp := range strings.Split(f.Args, ")") {
+				grp = strings.TrimSpace(strings.TrimPrefix(strings.TrimSpace(grp), "("))
+				if i := strings.Index(grp, ":"); i > 0 {
+					names = append(names, strings.Fields(grp[:i])...)
+				}
+			}
+			fmt.Fprintf(&b, "def %s (fuel__ : Nat) %s : Glb.Go.M %s :=\n  match fuel__ with\n  | 0 => .error (.other \"fuel\")\n  | fuel__ + 1 => do\n", lean, f.Args, f.Ret)
+			_ = names
+			t.base = 2
+		} else {
+			fmt.Fprintf(&b, "def %s %s : Glb.Go.M %s := do\n", lean, f.Args, f.Ret)
+		}
 		for _, p := range t.ptrs {
-			t.line(1, "let mut %s := %s", p, p)
+			t.line(1, "let mut %s := %s", t.nm(p), t.nm(p))
 		}
 		for _, fld := range decl.Type.Params.List {
 			for _, n := range fld.Names {
@@ -1983,6 +2076,23 @@ func extractGoLean() {
 			{File: "logger/json_handler.go", Name: "appendJsonSource", Args: "(buf : Bytes) (file : Bytes) (line : Int)", Ret: "Bytes", Ptr: ptrBuf, Env: tables, Skip: frame},
 		},
 	})
+	// TrJsonAttr (C01): the separator / group bookkeeping of appendJsonAttr (recursive: fuel). slog.Attr is the
+	// model's resolved attribute tree; appendJsonValue (leaf rendering through the standard library) is the
+	// model's leaf writer.
+	glTranslate(glUnit{
+		Module: "TrJsonAttr", NS: "Glb.Tr.Logger",
+		Imports: []string{"Glb.Go.LibJson", "Glb.Generated.TrJson"},
+		Funcs: []glFunc{
+			{File: "logger/json_handler.go", Name: "appendJsonAttr", Rec: true,
+				Args: "(buf : Bytes) (a : Glb.JsonHandler.Attr) (addSep : Bool) (colorful : Bool)", Ret: "(Bytes × Bool)",
+				Ptr:    map[string]bool{"buf": true, "range-elems": true},
+				Env:    map[string]string{"slog.KindGroup": "true"},
+				Fields: map[string]string{"Key": "Glb.Go.LibJson.keyOf"},
+				Tuples: map[string][]string{"a.Value.Kind()": {"(Glb.Go.LibJson.isGroup a)"}, "a.Value.Group()": {"(Glb.Go.LibJson.groupOf a)"}},
+				Skip:    []string{"a.Value = a.Value.Resolve()"},
+				Rewrite: map[string]string{"appendJsonValue(buf, a.Value, colorful)": "buf := buf ++ Glb.Go.LibJson.valueBytes a"}},
+		},
+	})
 	glTranslate(glUnit{
 		Module: "TrLogger", NS: "Glb.Tr.Logger",
 		Imports: []string{"Glb.Go.LibUtf8", "Glb.Generated.Logger", "Glb.Generated.TrJson"},
@@ -2125,8 +2235,23 @@ func extractGoLean() {
 		Module: "TrText", NS: "Glb.Tr.Logger",
 		Imports: []string{"Glb.Go.LibUtf8", "Glb.Go.LibText", "Glb.Generated.Logger"},
 		Funcs: []glFunc{
-			{File: "logger/text_handler.go", Name: "appendTextString", Args: "(P : Glb.TextHandler.Std) (buf : Bytes) (str : Bytes)", Ret: "Bytes", Ptr: ptrBuf, Env: tables,
+			{File: "logger/text_handler.go", Name: "appendTextString", Args: "(P : Glb.TextHandler.Std) (buf : Bytes) (str : Bytes)", Ret: "Bytes", Ptr: ptrBuf, Env: tables, Extra: "P",
 				Libs: textLibs, Fuel: map[int]string{0: "(Glb.Go.len str + 1).toNat"}},
+		},
+	})
+	// TrTextAttr (C13): the dotted-prefix bookkeeping of appendTextAttr (recursive: fuel; two threaded buffers)
+	glTranslate(glUnit{
+		Module: "TrTextAttr", NS: "Glb.Tr.Logger",
+		Imports: []string{"Glb.Go.LibTextAttr", "Glb.Generated.TrText"},
+		Funcs: []glFunc{
+			{File: "logger/text_handler.go", Name: "appendTextAttr", Rec: true, Extra: "P",
+				Args: "(P : Glb.TextHandler.Std) (buf : Bytes) (a : Glb.TextHandler.Attr) («prefix» : Bytes) (colorful : Bool)", Ret: "(Bytes × Bytes)",
+				Ptr:    map[string]bool{"buf": true, "prefix": true, "range-elems": true},
+				Env:    map[string]string{"slog.KindGroup": "true"},
+				Fields: map[string]string{"Key": "Glb.Go.LibTextAttr.keyOf"},
+				Tuples: map[string][]string{"a.Value.Kind()": {"(Glb.Go.LibTextAttr.isGroup a)"}, "a.Value.Group()": {"(Glb.Go.LibTextAttr.groupOf a)"}},
+				Skip:    []string{"a.Value = a.Value.Resolve()"},
+				Rewrite: map[string]string{"appendTextValue(buf, a.Value, colorful)": "buf := Glb.Go.LibTextAttr.valueAppend P buf a"}},
 		},
 	})
 
